@@ -7,6 +7,30 @@ use nexosim::ports::{EventBuffer, EventSink, EventSinkStream, EventSinkWriter, E
 use crate::seq::{explore, Subject};
 use crate::Outcome;
 
+/// Event types: an ordinary value, a zero-sized type and a large one.
+pub trait Payload: Clone + PartialEq + std::fmt::Debug + Send + 'static {
+    fn make(n: u32) -> Self;
+    const NAME: &'static str;
+}
+impl Payload for u32 {
+    fn make(n: u32) -> Self {
+        n
+    }
+    const NAME: &'static str = "u32";
+}
+impl Payload for () {
+    fn make(_: u32) -> Self {}
+    const NAME: &'static str = "unit";
+}
+#[derive(Clone, PartialEq, Debug)]
+pub struct Big(u32, [u64; 31]);
+impl Payload for Big {
+    fn make(n: u32) -> Self {
+        Big(n, [n as u64; 31])
+    }
+    const NAME: &'static str = "big";
+}
+
 #[derive(Clone, Debug)]
 pub enum SinkOp {
     Write1,
@@ -17,17 +41,17 @@ pub enum SinkOp {
     Close,
 }
 
-pub struct BufSubject {
-    buf: EventBuffer<u32>,
-    w1: <EventBuffer<u32> as EventSink<u32>>::Writer,
-    w2: <EventBuffer<u32> as EventSink<u32>>::Writer,
+pub struct BufSubject<P: Payload> {
+    buf: EventBuffer<P>,
+    w1: <EventBuffer<P> as EventSink<P>>::Writer,
+    w2: <EventBuffer<P> as EventSink<P>>::Writer,
     cap: usize,
-    model: VecDeque<u32>,
+    model: VecDeque<P>,
     open: bool,
     n: u32,
 }
 
-impl Subject for BufSubject {
+impl<P: Payload> Subject for BufSubject<P> {
     type Op = SinkOp;
     /// (capacity, initially closed)
     type Cfg = (usize, bool);
@@ -41,7 +65,7 @@ impl Subject for BufSubject {
         };
         let w1 = buf.writer();
         let w2 = w1.clone();
-        BufSubject { buf, w1, w2, cap: if cfg.0 == 0 { EventBuffer::<u32>::DEFAULT_CAPACITY } else { cfg.0 }, model: VecDeque::new(), open: !cfg.1, n: 0 }
+        BufSubject { buf, w1, w2, cap: if cfg.0 == 0 { EventBuffer::<P>::DEFAULT_CAPACITY } else { cfg.0 }, model: VecDeque::new(), open: !cfg.1, n: 0 }
     }
     fn ops(&self) -> Vec<SinkOp> {
         vec![SinkOp::Write1, SinkOp::Write2, SinkOp::Next, SinkOp::Drain, SinkOp::Open, SinkOp::Close]
@@ -49,12 +73,12 @@ impl Subject for BufSubject {
     fn apply(&mut self, op: &SinkOp) -> Result<String, String> {
         match op {
             SinkOp::Write1 | SinkOp::Write2 => {
-                let v = self.n;
+                let v = P::make(self.n);
                 self.n += 1;
                 if matches!(op, SinkOp::Write1) {
-                    self.w1.write(v)
+                    self.w1.write(v.clone())
                 } else {
-                    self.w2.write(v)
+                    self.w2.write(v.clone())
                 }
                 if self.open {
                     if self.model.len() == self.cap {
@@ -73,8 +97,8 @@ impl Subject for BufSubject {
                 Ok(format!("next {:?}", got))
             }
             SinkOp::Drain => {
-                let got: Vec<u32> = (&mut self.buf).collect();
-                let exp: Vec<u32> = self.model.drain(..).collect();
+                let got: Vec<P> = (&mut self.buf).collect();
+                let exp: Vec<P> = self.model.drain(..).collect();
                 if got != exp {
                     return Err(format!("draining returned {:?}, the model says {:?}", got, exp));
                 }
@@ -97,16 +121,16 @@ impl Subject for BufSubject {
     }
 }
 
-pub struct SlotSubject {
-    slot: EventSlot<u32>,
-    w1: <EventSlot<u32> as EventSink<u32>>::Writer,
-    w2: <EventSlot<u32> as EventSink<u32>>::Writer,
-    model: Option<u32>,
+pub struct SlotSubject<P: Payload> {
+    slot: EventSlot<P>,
+    w1: <EventSlot<P> as EventSink<P>>::Writer,
+    w2: <EventSlot<P> as EventSink<P>>::Writer,
+    model: Option<P>,
     open: bool,
     n: u32,
 }
 
-impl Subject for SlotSubject {
+impl<P: Payload> Subject for SlotSubject<P> {
     type Op = SinkOp;
     type Cfg = bool;
     fn fresh(closed: &bool) -> Self {
@@ -121,12 +145,12 @@ impl Subject for SlotSubject {
     fn apply(&mut self, op: &SinkOp) -> Result<String, String> {
         match op {
             SinkOp::Write1 | SinkOp::Write2 => {
-                let v = self.n;
+                let v = P::make(self.n);
                 self.n += 1;
                 if matches!(op, SinkOp::Write1) {
-                    self.w1.write(v)
+                    self.w1.write(v.clone())
                 } else {
-                    self.w2.write(v)
+                    self.w2.write(v.clone())
                 }
                 if self.open {
                     self.model = Some(v);
@@ -142,8 +166,8 @@ impl Subject for SlotSubject {
                 Ok(format!("next {:?}", got))
             }
             SinkOp::Drain => {
-                let got: Vec<u32> = (&mut self.slot).collect();
-                let exp: Vec<u32> = self.model.take().into_iter().collect();
+                let got: Vec<P> = (&mut self.slot).collect();
+                let exp: Vec<P> = self.model.take().into_iter().collect();
                 if got != exp {
                     return Err(format!("draining returned {:?}, the model says {:?}", got, exp));
                 }
@@ -169,7 +193,11 @@ impl Subject for SlotSubject {
 pub fn check(depth: usize) -> Vec<Outcome> {
     let cfgs: Vec<(usize, bool)> = vec![(1, false), (2, false), (3, false), (1, true), (2, true), (0, false), (0, true)];
     vec![
-        explore::<BufSubject>("event_buffer", &cfgs, depth),
-        explore::<SlotSubject>("event_slot", &[false, true], depth + 1),
+        explore::<BufSubject<u32>>("event_buffer", &cfgs, depth),
+        explore::<SlotSubject<u32>>("event_slot", &[false, true], depth + 1),
+        explore::<BufSubject<()>>("event_buffer<unit>", &cfgs, depth - 1),
+        explore::<SlotSubject<()>>("event_slot<unit>", &[false, true], depth - 1),
+        explore::<BufSubject<Big>>("event_buffer<big>", &cfgs, depth - 2),
+        explore::<SlotSubject<Big>>("event_slot<big>", &[false, true], depth - 1),
     ]
 }
